@@ -1,6 +1,7 @@
 package main
 
 import (
+	"fmt"
 	"go/ast"
 	"go/token"
 	"go/types"
@@ -36,6 +37,19 @@ func isIntType(t types.Type) bool {
 	return ok && b.Kind() == types.Int
 }
 
+// isMachineInt: int and the sized signed integers (an int64 detour inside a *big.Int callback wraps like int does).
+func isMachineInt(t types.Type) bool {
+	b, ok := t.Underlying().(*types.Basic)
+	if !ok {
+		return false
+	}
+	switch b.Kind() {
+	case types.Int, types.Int64, types.Int32:
+		return true
+	}
+	return false
+}
+
 // intArithScopes: the bodies in which int fast-path arithmetic lives.
 func intArithScopes(c *Ctx) map[string]ast.Node {
 	info := c.Gojq.TypesInfo
@@ -49,6 +63,12 @@ func intArithScopes(c *Ctx) map[string]ast.Node {
 			call, ok := m.(*ast.CallExpr)
 			if !ok || !strings.HasPrefix(calleeName(info, call), "gojq.binopTypeSwitch") || len(call.Args) < 3 {
 				return true
+			}
+			// the other numeric callbacks (float64, *big.Int): machine-integer arithmetic inside them is held to the same rules
+			for k := 3; k <= 4 && k < len(call.Args); k++ {
+				if fl, ok := unparen(call.Args[k]).(*ast.FuncLit); ok {
+					out[fmt.Sprintf("%s:cb%d", fn, k-2)] = fl.Body
+				}
 			}
 			switch cb := unparen(call.Args[2]).(type) {
 			case *ast.FuncLit:
@@ -132,7 +152,7 @@ func ruleC10Guard(c *Ctx, r *Rep) {
 			switch x := m.(type) {
 			case *ast.BinaryExpr:
 				tx, ty := info.TypeOf(x.X), info.TypeOf(x.Y)
-				if tx == nil || ty == nil || !isIntType(tx) || !isIntType(ty) {
+				if tx == nil || ty == nil || !isMachineInt(tx) || !isMachineInt(ty) {
 					return true
 				}
 				if tv, ok := info.Types[x]; ok && tv.Value != nil {
@@ -220,7 +240,23 @@ func ruleC10Guard(c *Ctx, r *Rep) {
 						}
 						okc = minus && zero
 					}
-					r.Check(okc, key, x.Pos(), "`%s` in %s is reached only after the divisor was tested against 0 (error) and -1 (MinInt / -1 overflows): %v", c.Src(x), name, okc)
+					if !okc && x.Op == token.REM {
+						// form 3, remainder only: Go defines MinInt % -1 as 0, so only division by zero must be excluded:
+						// an earlier `if d == 0 { return … }` on the divisor
+						ast.Inspect(body, func(k ast.Node) bool {
+							ifs, ok := k.(*ast.IfStmt)
+							if !ok || ifs.Pos() > x.Pos() || !endsInReturn(ifs.Body) {
+								return true
+							}
+							if be, ok := unparen(ifs.Cond).(*ast.BinaryExpr); ok && be.Op == token.EQL && sameObj(info, be.X, x.Y) {
+								if v, ok := constInt(info, be.Y); ok && v == 0 {
+									okc = true
+								}
+							}
+							return true
+						})
+					}
+					r.Check(okc, key, x.Pos(), "`%s` in %s is reached only after the divisor was tested against 0 (error) and, for a quotient, -1 (MinInt / -1 overflows; Go defines MinInt %% -1 as 0): %v", c.Src(x), name, okc)
 				}
 			case *ast.UnaryExpr:
 				if x.Op != token.SUB {
